@@ -258,6 +258,17 @@ func c19R3(c *Ctx) {
 	if won == nil {
 		c.lost("branch on the stopped CAS")
 	}
+	{
+		// no exit of the error handler precedes the attempt to latch 'stopped' (an early "nothing to do" return makes the session immune to Ctrl-C and to the timeout)
+		h0, p0 := reachFrom(f.Blocks[0], 0, isReturn, func(in ssa.Instruction) bool { return isStoppedSet(in) })
+		c.check(h0 == nil, "handleZmodemError/always-latches", c.pos(f.Pos()), "every call of the error handler tries to latch 'stopped'", "the error handler can return without trying to stop the session", c.pathStr(p0)...)
+		st := c.fn("zmodemTransfer.stopTransferringFiles")
+		h1, p1 := reachFrom(st.Blocks[0], 0, isReturn, func(in ssa.Instruction) bool {
+			c2, ok := in.(ssa.CallInstruction)
+			return ok && calleeID(c2.Common()) == "(*trzsz.zmodemTransfer).handleZmodemError"
+		})
+		c.check(h1 == nil, "stopTransferringFiles/always-error-path", c.pos(st.Pos()), "a stop request always takes the error path", "a stop request (Ctrl-C) can return without taking the error path", c.pathStr(p1)...)
+	}
 	hit, path := reachFrom(won, 0, isReturn, isCancelWrite)
 	c.check(hit == nil, "handleZmodemError/cancels-server", c.pos(f.Pos()), "every error tells the server side to cancel", "an error path does not send the cancel sequence to the server", c.pathStr(path)...)
 	w := c.fn("zmodemTransfer.checkClientExited")
